@@ -8,7 +8,7 @@ from props import c01
 
 ID = "C12"
 # look-alikes of prelude names (vlib/defs.py HOSTILE) this check's derives are immune to on the unchanged tree
-HOSTILE_OK = ['Default', 'From', 'Into', 'Result', 'Option', 'Some', 'Ok', 'Iterator', 'Clone', 'AsRef', 'Send', 'PhantomData', 'IterGet', 'm_matches', 'm_assert', 'm_fmt', 'c_binders', 'no_implicit_prelude']
+HOSTILE_OK = ['Default', 'From', 'Into', 'Result', 'Option', 'Some', 'Ok', 'Iterator', 'Clone', 'AsRef', 'Send', 'PhantomData', 'IterGet', 'm_matches', 'm_assert', 'm_fmt', 'c_binders', 'no_implicit_prelude', 'ByValue']
 PROP_FILE = "Props/C12.v"
 RULE = ("definitions: enum flag on/off x variant flag {absent, bare keyword, = true, = false} x spellings with ASCII letters, "
         "non-ASCII letters (é/É, ß, Kelvin sign, long s, dotless i, ligatures), digits, caseless and empty spellings, NonOverlap by "
